@@ -180,6 +180,7 @@ class ModGen:
                  temp_names=0.0):
         self.rng, self.table, self.text_safe, self.big = rng, table, text_safe, big
         self.lowent = False
+        self.pad_item = False          # emit one `data <name> u8 @PAD@` (the check substitutes a tuned number of elements)
         self.canon_labels = canon_labels
         self.split_ctx = split_ctx        # probability of a context break (newctx) between two modules
         self.temp_names = temp_names      # probability that a module uses reserved temporary names (.lc<N>, t<N>)
@@ -750,6 +751,11 @@ class ModGen:
                 pool.insert(rng.randint(0, len(pool)), rng.choice(LC_EDGE))
             self.lc_pool = pool
             self.treg = rng.random() < 0.5
+        if self.pad_item:
+            # a u8 table whose number of elements the check tunes until the UNCOMPRESSED binary image of the context has
+            # an exact length (every element below 128 is one byte of the stream)
+            self.emit('data %s u8 @PAD@' % self.fresh('pad'))
+            self.pad_item = False
         if self.big:
             # several KiB without any repetition: literal runs of maximal length in the compression layer
             self.emit('data %s u64 %s' % (self.fresh('rnd'), ' '.join(str(rng.getrandbits(64)) for _ in range(rng.randint(300, 900)))))
